@@ -308,7 +308,9 @@ func Prove(name string, hyps []*Term, goal *Term, getvals []*Term, timeoutS int,
 	res.File = file
 	if res.Status == "unsat" {
 		proveCache.Store(sum, res)
-		os.Remove(file)
+		if os.Getenv("GOVC_KEEPALL") == "" {
+			os.Remove(file)
+		}
 	}
 	return res
 }
